@@ -1,5 +1,5 @@
-// Counterexample found by mirsym/z3 for property C20, template pair_nested_pair: |x, y, z| { z == (y, p0), q == (x, z), x == p1, y == [x] } with parameters [0, 0]: an answer (term or reported constraint) mentions the program variable(s) ['y'] instead of reified `_` variables
-// Replay: /verif/check C20 --replay /verif/replay/cases/C20-pair_nested_pair_unreified_variable.rs
+// Counterexample found by mirsym/z3 for property C20, template cs_diseq_some_none: |x, y| { q == [x, y], Node(x, Some(Leaf(y))) != Node(p0, None), x == p0 } with parameters [-3]: reference answer 0 is missing from the engine's answers: the ground instance q = [-3, 0] is a solution that no engine answer covers
+// Replay: /verif/check C20 --replay /verif/replay/cases/C20-cs_diseq_some_none_lost.rs
 #![allow(unused_imports, unused_variables, unused_mut)]
 use proto_vulcan::prelude::*;
 use proto_vulcan::lterm::LTerm;
@@ -48,6 +48,18 @@ pub fn twice(g: Goal<TU, TE>) -> Goal<TU, TE> {
     let g2 = g.clone();
     proto_vulcan!([g, g2])
 }
+#[compound]
+struct Leaf(LTerm);
+#[compound]
+struct Wrap(LTerm);
+#[compound]
+struct Pt(LTerm, LTerm);
+#[compound]
+struct Node(LTerm, Option<Leaf>);
+#[compound]
+struct Named { a: LTerm, b: Leaf }
+#[compound]
+struct Tree(LTerm, Tree, Tree);
 
 const LIMIT: usize = 64;
 
@@ -64,15 +76,11 @@ fn replay() {
 }
 
 fn body() {
-    let p0: T = LTerm::from(0);
-    let p1: T = LTerm::from(0);
+    let p0: T = LTerm::from(-3);
     let query = proto_vulcan_query!(|q| {
-        |x, y, z| { z == (y, p0), q == (x, z), x == p1, y == [x] }
+        |x, y| { q == [x, y], Node(x, Some(Leaf(y))) != Node(p0, None), x == p0 },
+        q == [-3, 0]
     });
-    for r in query.run().take(LIMIT) {
-        let s = format!("{}", r.q);
-        for tok in s.split(|c: char| !(c.is_alphanumeric() || c == '_')) {
-            assert!(!["y"].contains(&tok), "answer `{}` mentions the program variable {}", s, tok);
-        }
-    }
+    let n = query.run().take(LIMIT).count();
+    assert_eq!(n > 0, true, "q = [-3, 0] must be a solution");
 }
